@@ -61,7 +61,7 @@ def walk_case(ctx, case) -> None:
     """case: n, values, computer, ops (boundcore ops).  Every compute in the history is a visit."""
     n, values, comp = case["n"], case["values"], case["computer"]
     cache = case.setdefault("_cache", {})
-    game = sut.new_game(n, BOUNDS[comp])
+    game = sut.object_for_case(ctx, case, comp)
     state = {"prev": None, "i": 0}
 
     def on_compute(g):
